@@ -164,6 +164,22 @@ def handle (j : Json) : R Json := do
       ("model", jObj [("table", toJson (cdsTable recordTable qual)),
                       ("translation", Json.str (String.ofList (cdsGeneratedTranslation tr recordTable qual)))]),
       ("spec", jObj [("guard", toJson true)])])
+  | "record_rt" =>
+    -- gene + motif + TTA marker written with Record.to_biopython and read back with Record.from_biopython
+    let s ← intF j "s"; let e ← intF j "e"; let off ← intF j "off"
+    let ig ← optLoc j "impl_gene"; let im ← optLoc j "impl_motif"; let it ← optLoc j "impl_tta"
+    let rd (misc : Bool) (r : Res Loc) : Res Loc := r.bind fun x => .ok (readLocation true misc x)
+    let basesOk (r : Option Loc) (a b : Int) : Json := match r with
+      | none => Json.null
+      | some r => toJson (bases r == sliceL (bases l) a.toNat b.toNat && r.parts.all fun q => q.strand == l.strand)
+    return jObj (common ++ [
+      ("model", jObj [("gene", locToJson (readLocation true false l)),
+                      ("motif", resJson locToJson (rd false (featureAt (subLocation l s e)))),
+                      ("tta", resJson locToJson (rd true (ttaLocation l off)))]),
+      ("spec", jObj [("guard", toJson true),
+                     ("gene", basesOk ig 0 l.len), ("motif", basesOk im (3 * s) (3 * e)),
+                     ("tta", basesOk it off (off + 3)),
+                     ("motif_slice", sliceJ l (3 * s) (3 * e)), ("tta_slice", sliceJ l off (off + 3))])])
   | k => throw s!"C09: unknown kind {k}"
 
 end ASV.Drv.C09
